@@ -1193,23 +1193,10 @@ impl<'de> de::Deserializer<'de> for &mut Deserializer<'de> {
                 ));
                 result
             }
-            (TypeInner::Record(e), TypeInner::Record(w)) => {
+            (TypeInner::Record(_), TypeInner::Record(_)) => {
                 let expect = self.expect_type.clone();
                 let wire = self.wire_type.clone();
                 check!(self.expect_type.is_tuple(), "seq_tuple");
-                // Fields are matched by position: the wire record has to start with the tuple's own
-                // fields (0, 1, ...); whatever follows has a larger id and is skipped afterwards.
-                let leading_fields_match = w
-                    .iter()
-                    .take(e.len())
-                    .enumerate()
-                    .all(|(i, f)| f.id.get_id() == i as u32);
-                if !leading_fields_match {
-                    return Err(Error::subtype(format!(
-                        "{} is not a tuple type",
-                        self.wire_type
-                    )));
-                }
                 let mut access = Compound::new(
                     self,
                     Style::Struct {
@@ -1663,23 +1650,46 @@ impl<'de> de::SeqAccess<'de> for Compound<'_, 'de> {
                     TypeInner::Record(fields) => fields,
                     _ => unreachable!(),
                 };
-                if *expect_idx >= expect_fields.len() && *wire_idx >= wire_fields.len() {
-                    return Ok(None);
-                }
-                self.de.expect_type = expect_fields
-                    .get(*expect_idx)
-                    .map(|f| {
-                        *expect_idx += 1;
-                        f.ty.clone()
-                    })
-                    .unwrap_or_else(|| TypeInner::Reserved.into());
-                self.de.wire_type = wire_fields
-                    .get(*wire_idx)
-                    .map(|f| {
-                        *wire_idx += 1;
-                        f.ty.clone()
-                    })
-                    .unwrap_or_else(|| TypeInner::Null.into());
+                // Elements are matched to wire fields by id, as record fields are. An element the
+                // sender does not have is read against null (so it has to be optional); a field only
+                // the sender has is read at reserved. The tuple's ids are 0, 1, ... and the wire ids
+                // ascend, so a wire-only field can only follow the elements that are present.
+                let (expect_ty, wire_ty) =
+                    match (expect_fields.get(*expect_idx), wire_fields.get(*wire_idx)) {
+                        (None, None) => return Ok(None),
+                        (Some(e), Some(w)) if e.id.get_id() == w.id.get_id() => {
+                            *expect_idx += 1;
+                            *wire_idx += 1;
+                            (e.ty.clone(), w.ty.clone())
+                        }
+                        (Some(e), Some(w)) if e.id.get_id() > w.id.get_id() => {
+                            return Err(Error::subtype(format!(
+                                "field {} of {wire} is not an element of {expect}",
+                                w.id
+                            )));
+                        }
+                        (Some(e), _) => {
+                            // by subtyping rules, the element can only be opt, reserved or null.
+                            *expect_idx += 1;
+                            let ty = self
+                                .de
+                                .table
+                                .trace_type_with_depth(&e.ty, &self.de.recursion_depth)?;
+                            if !matches!(
+                                ty.as_ref(),
+                                TypeInner::Opt(_) | TypeInner::Reserved | TypeInner::Null
+                            ) {
+                                return Err(Error::subtype(format!("{wire} is not a tuple type")));
+                            }
+                            (e.ty.clone(), TypeInner::Null.into())
+                        }
+                        (None, Some(w)) => {
+                            *wire_idx += 1;
+                            (TypeInner::Reserved.into(), w.ty.clone())
+                        }
+                    };
+                self.de.expect_type = expect_ty;
+                self.de.wire_type = wire_ty;
                 seed.deserialize(&mut *self.de).map(Some)
             }
             _ => Err(Error::subtype("expect vector or tuple")),
